@@ -205,6 +205,21 @@ def gen_basic(thorough):
                 text = "%s %s f = new %s(%s); %s" % (decl, kind, pred, args, b)
                 k += 1
                 progs.append(("tb%d" % k, text.strip(), {"fam": "basic", "decl": dn, "kind": kind, "impulse": impulse, "bound": b}))
+    # facts created inside the rule of a goal (re-entrant rule application): a second fact of the same predicate in one
+    # body, and a fact in the body of a goal that is itself an Interval / Impulse
+    for dn, (decl, pred, st) in decls.items():
+        impulse = "impulse" in dn
+        args = "amount: 1.0" if st in ("rr", "cr") else ""
+        for shape in ("second-fact", "in-interval-goal", "in-impulse-goal"):
+            for b in (["", "f.at >= 7.0;"] if impulse else ["", "f.start >= 3.0;", "f.duration >= 4.0;"]):
+                if shape == "second-fact":
+                    head, body = "predicate G()", "fact e = new %s(%s); fact f = new %s(%s); %s" % (pred, args, pred, args, b)
+                else:
+                    head = "predicate G() : %s" % ("Interval" if shape == "in-interval-goal" else "Impulse")
+                    body = "fact f = new %s(%s); %s" % (pred, args, b)
+                text = "%s %s { %s } goal g = new G();" % (decl, head, body)
+                k += 1
+                progs.append(("tb%d" % k, text.strip(), {"fam": "basic", "decl": dn + ":" + shape, "kind": "fact", "impulse": impulse, "bound": b}))
     return progs
 
 
@@ -330,6 +345,11 @@ def check_c05(S, tag):
     return out
 
 
+def a_is_sub(c):
+    """the atom was created by a rule (it has causes), and its flaw is in the plan"""
+    return bool(c.get("causes")) and c.get("phi") == "T"
+
+
 def check_c03(S, tag):
     """justification of every atom, from the causal information dumped by the runner"""
     out = []
@@ -374,37 +394,55 @@ def check_c03(S, tag):
                     if r["kind"] != "activate":
                         continue
                     for pre in r["preconditions"]:
-                        if pre["phi"] != "T":
+                        # a flaw with further causes (a timeline inconsistency with an atom of a disjunct that was not
+                        # chosen) is required only when all its causes are active
+                        if pre["phi"] != "T" and pre.get("all_causes_active", True):
                             out.append(("C03:subgoal-of-active-goal-not-in-plan:%s" % tag, "goal %s is active but a flaw required by its rule is not in the plan" % S.name(aid)))
-    # acyclicity: parent -> sub-atom (causes) and unified -> target
-    edges = {}
+    # acyclicity of causal support.  'needs': a parent needs the sub-atoms its rule created (directly or through a
+    # disjunction / variable choice inside the rule), a unified atom needs its target.  A cycle means that some atom is
+    # (transitively) supported through unification by an atom it gave rise to.  The second graph (target -> unified atom
+    # instead of unified atom -> target) catches an atom unified with one of its own descendants.
+    needs, gives = {}, {}
     for aid, c in C.items():
         for cs in c["causes"]:
             if cs["effect_atom"] and cs["rho"] == "T" and not cs["unify"]:
-                edges.setdefault(cs["effect_atom"], set()).add(aid)  # parent gives rise to aid
+                needs.setdefault(cs["effect_atom"], set()).add(aid)
+                gives.setdefault(cs["effect_atom"], set()).add(aid)
+        if a_is_sub(c):
+            for anc in c.get("ancestor_atoms", []):
+                needs.setdefault(anc, set()).add(aid)
+                gives.setdefault(anc, set()).add(aid)
         for r in c["resolvers"]:
             if r["kind"] == "unify" and r["rho"] == "T":
-                edges.setdefault(r["target"], set()).add(aid)  # target supports aid
-    # a cycle in 'supports' = some atom is supported (through unification) by an atom it gave rise to
-    color = {}
+                needs.setdefault(aid, set()).add(r["target"])
+                gives.setdefault(r["target"], set()).add(aid)
 
-    def dfs(u, stack):
-        color[u] = 1
-        for v in edges.get(u, ()):
-            if color.get(v) == 1:
-                return stack + [u, v]
-            if color.get(v) is None:
-                r = dfs(v, stack + [u])
-                if r:
-                    return r
-        color[u] = 2
+    def find_cycle(edges):
+        color = {}
+
+        def dfs(u, stack):
+            color[u] = 1
+            for v in edges.get(u, ()):
+                if color.get(v) == 1:
+                    return stack + [u, v]
+                if color.get(v) is None:
+                    r = dfs(v, stack + [u])
+                    if r:
+                        return r
+            color[u] = 2
+            return None
+        for u in list(edges):
+            if color.get(u) is None:
+                cyc = dfs(u, [])
+                if cyc:
+                    return cyc
         return None
-    for u in list(edges):
-        if color.get(u) is None:
-            cyc = dfs(u, [])
-            if cyc:
-                out.append(("C03:cyclic-causal-support:%s" % tag, "cycle through atoms " + " -> ".join(S.name(x) for x in cyc)))
-                break
+    for edges in (needs, gives):
+        cyc = find_cycle(edges)
+        if cyc:
+            cyc = cyc[cyc.index(cyc[-1]):]
+            out.append(("C03:cyclic-causal-support:%s" % tag, "cycle of causal support (x -> y: x needs y) through atoms " + " -> ".join(S.name(x) for x in cyc)))
+            break
     return out
 
 
